@@ -28,3 +28,46 @@ Theorem C05_triple_invariant :
       dotR (vsubR (m a) (m b)) (crossR (vsubR (m c) (m e)) (vsubR (m f) (m g))) = dotR (vsubR a b) (crossR (vsubR c e) (vsubR f g)).
 Proof. intros. subst m. erewrite triple_moved by eassumption. ring. Qed.
 Print Assumptions C05_triple_invariant.
+
+(* ------------------------------------------------------------------ the whole annotation, on the model (integer grid) *)
+From Coq Require Import ZArith List.
+From RV Require Import Model.Annot Proofs.C05Main.
+Close Scope R_scope.
+
+(* base pairs (with classes), base-phosphate and base-ribose contacts are unchanged by p |-> M p + t for every linear M
+   that preserves dot and cross products (every rotation of the grid) and every translation t *)
+Theorem C05_pairs_invariant : forall (M : vecZ -> vecZ) (t : vecZ),
+    (forall a b, M (vsubZ a b) = vsubZ (M a) (M b)) -> (forall a b, dotZ (M a) (M b) = dotZ a b) ->
+    (forall a b, crossZ (M a) (M b) = M (crossZ a b)) ->
+    forall rs order, find_pairs (map (move_res M t) rs) order = find_pairs rs order.
+Proof. exact find_pairs_invariant. Qed.
+Print Assumptions C05_pairs_invariant.
+
+Theorem C05_stackings_invariant : forall (M : vecZ -> vecZ) (t : vecZ),
+    (forall a b, M (vaddZ a b) = vaddZ (M a) (M b)) -> (forall a b, M (vsubZ a b) = vsubZ (M a) (M b)) ->
+    (forall k a, M (scale k a) = scale k (M a)) -> (forall a b, dotZ (M a) (M b) = dotZ a b) ->
+    (forall a b, crossZ (M a) (M b) = M (crossZ a b)) ->
+    forall rs order, find_stackings (map (move_res M t) rs) order = find_stackings rs order.
+Proof. exact find_stackings_invariant. Qed.
+Print Assumptions C05_stackings_invariant.
+
+(* the neighbour set the KD-tree answer is validated against does not move either *)
+Theorem C05_neighbours_invariant : forall (M : vecZ -> vecZ) (t : vecZ),
+    (forall a b, M (vsubZ a b) = vsubZ (M a) (M b)) -> (forall a b, dotZ (M a) (M b) = dotZ a b) ->
+    forall rs, hbond_neighbours (map (move_res M t) rs) = hbond_neighbours rs.
+Proof. exact hbond_neighbours_invariant. Qed.
+Print Assumptions C05_neighbours_invariant.
+
+(* instances: all translations; the 120-degree rotation about (1,1,1) and the 90-degree rotation about z, each with any translation *)
+Theorem C05_translation : forall t rs o1 o2,
+    find_pairs (map (move_res (fun v => v) t) rs) o1 = find_pairs rs o1 /\ find_stackings (map (move_res (fun v => v) t) rs) o2 = find_stackings rs o2.
+Proof. exact translation_invariant. Qed.
+Print Assumptions C05_translation.
+Theorem C05_rotation_cyc : forall t rs o1 o2,
+    find_pairs (map (move_res rot_cyc t) rs) o1 = find_pairs rs o1 /\ find_stackings (map (move_res rot_cyc t) rs) o2 = find_stackings rs o2.
+Proof. exact rotation_cyc_invariant. Qed.
+Print Assumptions C05_rotation_cyc.
+Theorem C05_rotation_z90 : forall t rs o1 o2,
+    find_pairs (map (move_res rot_z90 t) rs) o1 = find_pairs rs o1 /\ find_stackings (map (move_res rot_z90 t) rs) o2 = find_stackings rs o2.
+Proof. exact rotation_z90_invariant. Qed.
+Print Assumptions C05_rotation_z90.
